@@ -166,6 +166,21 @@ theorem deltas_ok (sc : Scripts) (cmds : List Cmd) (s : Nat) (x : Entry) (xs : L
     simp only [] at this; omega
   · exact nonneg_of_sorted xs 0 x hsort
 
+/-- the model keeps handles in `Nat`; the C code returns them as `int`.  **Explicit side condition** under which
+    the two agree: fewer than 2^31 / N call_outs have been created so far (`unique` counts them).  Then every pending
+    handle fits a C `int`.  (Beyond that bound `tm += CALLOUT_CYCLE_SIZE * ++unique` overflows; not modelled.) -/
+theorem handles_fit_int (sc : Scripts) (cmds : List Cmd) (hb : (runCmds sc World.init cmds).unique < 2 ^ 31 / N)
+    (c : Call) (hc : InWheel (runCmds sc World.init cmds) c) : c.handle < 2 ^ 31 := by
+  have hw := (runCmds_rest sc init_rest cmds).1
+  obtain ⟨s, D, hm⟩ := hc
+  have e := hw.ent s _ hm
+  have h1 := e.handle
+  have h2 := e.serial
+  have h3 := e.slot
+  simp only [] at h1 h2
+  generalize (runCmds sc World.init cmds).unique = u at *
+  wheel_omega
+
 /-! ### non-vacuity -/
 
 /-- a script table used by the examples: the callback of (o1, "a") schedules "b" into the slot being swept,
@@ -183,6 +198,9 @@ example : (events (runCmds exScripts World.init exCmds)).length = 18 := by decid
 
 example : (events (runCmds exScripts World.init exCmds)).filter (fun e => match e with | .fire .. => true | _ => false)
     = [.fire 3 1 0 "a", .fire 43 1 1 "b"] := by decide
+
+/-- the side condition of `handles_fit_int` is satisfiable on the non-trivial example history -/
+example : (runCmds exScripts World.init exCmds).unique < 2 ^ 31 / N := by decide
 
 /-- the oracle is not vacuous: it rejects a late fire, a repeated fire, a wrong answer, a missed call_out -/
 example : judgeEv [.co 0 1 0 5 "a" 37, .tickbegin 9, .fire 9 1 0 "a", .fire 9 1 0 "a", .tickend 9] ≠ [] := by decide
